@@ -515,16 +515,16 @@ theorem fillPacket_spec (d : Db) (cid ln row : Nat) :
         right
         exact ⟨_, List.mem_map.mpr ⟨i, List.mem_filter.mpr ⟨hi, by simp [hv]⟩, rfl⟩, rfl⟩
 
-/-- add_packet, container-local refinement: on success the target loop gains exactly one packet at the end — the given values,
-    the unknown value for the loop's items the packet omits (since fix e266ec6 they are stored as such: `addPacket_total`) — and
-    every other loop of the CIF, blocks and frames are what they were.  Hypothesis beyond `Inv`: `RowsBelow` (row numbers ≤
-    last_row_num). -/
-theorem addPacket_refines (d d' : Db) (l : LH) (pkt : List (Str × V)) (h : Inv d) (hrb : RowsBelow d l.cid l.loopNum)
+/-- cif_loop_add_packet, loop by loop: the loop table keeps its rows (the handle's loop counts one more), the item table is
+    untouched, the handle's loop shows one more packet at the end, every other loop shows what it showed -/
+theorem addPacket_pointwise (d d' : Db) (l : LH) (pkt : List (Str × V)) (h : Inv d) (hrb : RowsBelow d l.cid l.loopNum)
     (hne : pkt ≠ []) (he : addPacketBody l pkt d = .ok (d', ())) :
-    (∀ cid', absLoops d' cid' = (d.loops.filter (fun x => x.cid == cid')).map (fun x =>
+    d'.loops = d.loops.map (fun x => if x.cid == l.cid && x.loopNum == l.loopNum then { x with lastRowNum := x.lastRowNum + 1 } else x) ∧
+    d'.items = d.items ∧
+    (∀ x ∈ d.loops, absLoop d' (if x.cid == l.cid && x.loopNum == l.loopNum then { x with lastRowNum := x.lastRowNum + 1 } else x) =
         if x.cid == l.cid && x.loopNum == l.loopNum then
           { absLoop d x with packets := (absLoop d x).packets ++ [packetFor d l.cid l.loopNum pkt] }
-        else absLoop d x)) ∧
+        else absLoop d x) ∧
     d'.frames = d.frames ∧ d'.blocks = d.blocks := by
   unfold addPacketBody at he
   split at he
@@ -720,20 +720,39 @@ theorem addPacket_refines (d d' : Db) (l : LH) (pkt : List (Str × V)) (h : Inv 
               omega
             rw [hold, Option.none_or]
             exact hP3 i
-        refine ⟨?_, f3, b3⟩
-        intro cid'
-        unfold absLoops
-        rw [l3, List.filter_map]
-        have hcomp : ((fun x : LoopRow => x.cid == cid') ∘ f) = (fun x : LoopRow => x.cid == cid') := by
-          funext y; simp only [Function.comp, (hfk y).1]
-        rw [hcomp, List.map_map]
-        apply List.map_congr_left
-        intro x hx
-        have hxm := (List.mem_filter.mp hx).1
-        simp only [Function.comp, habs]
+        refine ⟨l3, i3, ?_, f3, b3⟩
+        intro x hxm
+        have := habs x
+        simp only [f] at this
+        rw [this]
         cases hc : (x.cid == l.cid && x.loopNum == l.loopNum) with
         | true => simp only [if_true]; exact htarget x hxm hc
         | false => simp only [Bool.false_eq_true, if_false]; exact hrest x hxm hc
+
+/-- add_packet, container-local refinement: on success the target loop gains exactly one packet at the end — the given values,
+    the unknown value for the loop's items the packet omits (since fix e266ec6 they are stored as such: `addPacket_total`) — and
+    every other loop of the CIF, blocks and frames are what they were.  Hypothesis beyond `Inv`: `RowsBelow` (row numbers ≤
+    last_row_num). -/
+theorem addPacket_refines (d d' : Db) (l : LH) (pkt : List (Str × V)) (h : Inv d) (hrb : RowsBelow d l.cid l.loopNum)
+    (hne : pkt ≠ []) (he : addPacketBody l pkt d = .ok (d', ())) :
+    (∀ cid', absLoops d' cid' = (d.loops.filter (fun x => x.cid == cid')).map (fun x =>
+        if x.cid == l.cid && x.loopNum == l.loopNum then
+          { absLoop d x with packets := (absLoop d x).packets ++ [packetFor d l.cid l.loopNum pkt] }
+        else absLoop d x)) ∧
+    d'.frames = d.frames ∧ d'.blocks = d.blocks := by
+  obtain ⟨l3, _, hpt, f3, b3⟩ := addPacket_pointwise d d' l pkt h hrb hne he
+  refine ⟨?_, f3, b3⟩
+  intro cid'
+  unfold absLoops
+  rw [l3, List.filter_map]
+  have hcomp : ((fun x : LoopRow => x.cid == cid') ∘
+      (fun x : LoopRow => if x.cid == l.cid && x.loopNum == l.loopNum then { x with lastRowNum := x.lastRowNum + 1 } else x)) =
+      (fun x : LoopRow => x.cid == cid') := by
+    funext y; simp only [Function.comp]; split <;> rfl
+  rw [hcomp, List.map_map]
+  apply List.map_congr_left
+  intro x hx
+  exact hpt x (List.mem_filter.mp hx).1
 
 end CifModel.Store
 
